@@ -183,4 +183,12 @@ theorem C18_repaired_keeps : (finalOf false).pending = (3, 2) ∧ (finalOf false
 example : Reachable (run false (St.init [.block, .unblock true]) [.step true, .arrive 1, .step true]) := ⟨_, _, rfl⟩
 example : (run false (St.init [.work]) [.arrive 1, .step true, .step true, .arrive 2, .step true]).blocked = 2 := by decide
 
+/-- **a release that is not the outermost one leaves the remembered signal where it is**: the first step of `unblockSignals` only lowers the
+    count; when other blocks are still in force the call ends there — the slot and the log are untouched -/
+theorem C18_inner_release_keeps (pr : Bool) (s : St) (d r : Bool) (pend : Nat × Nat) (rest : List Frame)
+    (hs : s.stack = .ub d .dec pend :: rest) (hb : s.blocked ≠ 1) :
+    ∃ s', step pr s (.step r) = some s' ∧ s'.pending = s.pending ∧ s'.log = s.log ∧ s'.stack = rest ∧ s'.blocked = s.blocked - 1 := by
+  refine ⟨{ s with blocked := s.blocked - 1, appDepth := s.appDepth - 1, stack := rest }, ?_, rfl, rfl, rfl, rfl⟩
+  simp only [step, hs, hb, if_false]
+
 end PotasscoVerif.C18
